@@ -30,6 +30,44 @@ use std::cell::RefCell;
 // element types
 // ---------------------------------------------------------------------------------------------
 
+// ---------------------------------------------------------------------------------------------
+// the data stored in the leaves
+//
+// `ids` (default): every cell holds its own id, so positions are identifiable by value.  The
+// degenerate modes make values collide on purpose (an iterator that skipped zeros, equal
+// neighbours or repeated values would otherwise go unnoticed): the *sequence* of values is
+// compared, and references are still identified by address.
+// ---------------------------------------------------------------------------------------------
+
+thread_local! {
+    static DATA_MODE: std::cell::Cell<u8> = std::cell::Cell::new(0);
+}
+
+const MODES: [&str; 5] = ["ids", "zero", "same", "dup", "mod3"];
+
+fn set_mode(name: &str) {
+    let m = MODES.iter().position(|m| *m == name).expect("data mode") as u8;
+    DATA_MODE.with(|d| d.set(m));
+}
+
+fn mode() -> u8 {
+    DATA_MODE.with(|d| d.get())
+}
+
+/// the value stored in the cell with this id
+fn val_of(id: usize) -> u64 {
+    match mode() {
+        0 => id as u64,
+        1 => 0,
+        2 => 7,
+        3 => (id / 2) as u64,
+        _ => (id % 3) as u64,
+    }
+}
+
+/// what the mutable iterators' items are overwritten with in the degenerate modes
+const EQUAL_WRITE: u64 = 5;
+
 const PLACEHOLDER: u64 = u64::MAX;
 /// the placeholder made by `ZeroOne::zero` (the `from_numeric` constructors)
 const ZERO_PLACEHOLDER: u64 = u64::MAX - 1;
@@ -45,23 +83,16 @@ thread_local! {
 #[derive(Debug)]
 pub struct Dc {
     id: u64,
+    /// the payload shown (`val_of(id)`; equal to the id in the default data mode)
+    val: u64,
 }
 
 impl Dc {
     fn new(id: u64) -> Dc {
-        Dc { id }
+        Dc { id, val: val_of(id as usize) }
     }
     fn show(&self) -> String {
-        if self.id == PLACEHOLDER || self.id == ZERO_PLACEHOLDER { "P".into() } else { self.id.to_string() }
-    }
-}
-
-impl Dc {
-    /// render an id read from a leaf (the temporary must not count as a drop)
-    fn show_forget(self) -> String {
-        let s = self.show();
-        std::mem::forget(self);
-        s
+        if self.id == PLACEHOLDER || self.id == ZERO_PLACEHOLDER { "P".into() } else { self.val.to_string() }
     }
 }
 
@@ -69,7 +100,7 @@ impl Default for Dc {
     fn default() -> Dc {
         DROPS.with(|d| d.borrow_mut().1 += 1);
         PRODUCERS.with(|p| p.borrow_mut().0 += 1);
-        Dc { id: PLACEHOLDER }
+        Dc { id: PLACEHOLDER, val: 0 }
     }
 }
 
@@ -77,7 +108,7 @@ impl ZeroOne for Dc {
     fn zero() -> Dc {
         DROPS.with(|d| d.borrow_mut().1 += 1);
         PRODUCERS.with(|p| p.borrow_mut().1 += 1);
-        Dc { id: ZERO_PLACEHOLDER }
+        Dc { id: ZERO_PLACEHOLDER, val: 0 }
     }
     fn one() -> Dc {
         unreachable!("the iterators never ask for one()")
@@ -325,8 +356,8 @@ impl Base {
         match self.id_of(r as *const u64) {
             None => format!("!addr{:x}", r as *const u64 as usize),
             Some(id) => {
-                if *r != id as u64 {
-                    // values equal ids until something is written: a stale or foreign cell
+                if *r != val_of(id) {
+                    // the value stored there until something is written: a stale or foreign cell
                     format!("{}!val{}", id, *r)
                 } else {
                     id.to_string()
@@ -399,7 +430,12 @@ fn write_all(refs: Vec<&mut u64>, base: Base) -> Vec<usize> {
     let cells: Vec<usize> =
         refs.iter().map(|r| base.id_of(&**r as *const u64).unwrap_or(usize::MAX)).collect();
     for r in refs {
-        *r += BUMP;
+        if mode() == 0 {
+            *r += BUMP;
+        } else {
+            // every handed-out element receives the same value
+            *r = EQUAL_WRITE;
+        }
     }
     cells
 }
@@ -421,7 +457,14 @@ fn distinct_report_ids(cells: &[usize], now: &[(usize, u64)]) -> &'static str {
     }
     for (id, v) in now {
         let k = seen[id];
-        if k > 1 || *v != *id as u64 + BUMP * k as u64 {
+        let expected = if mode() == 0 {
+            *id as u64 + BUMP * k as u64
+        } else if k == 0 {
+            val_of(*id)
+        } else {
+            EQUAL_WRITE
+        };
+        if k > 1 || *v != expected {
             return " distinct=ALIAS";
         }
     }
@@ -916,7 +959,7 @@ fn boxed_u64<const D: usize>(
 fn tensor_u64<const D: usize>(shape: &[(&'static str, usize)], ads: &[TAd], op: &Op) -> String {
     let shape: [(&'static str, usize); D] = shape_array(shape);
     let total: usize = shape.iter().map(|d| d.1).product();
-    let leaf = Leaf::new(Tensor::from(shape, (0..total as u64).collect()));
+    let leaf = Leaf::new(Tensor::from(shape, (0..total).map(val_of).collect()));
     let base = Base::single(TensorRef::get_reference(leaf.get(), [0; D]).unwrap() as *const u64);
     let n = op.n;
     let into = op.into;
@@ -1318,7 +1361,7 @@ fn leaf_ids<E>(leaves: &[LeafInfo<E>]) -> Vec<usize> {
 }
 
 fn zip_u64<const D: usize>(root: &Root, post: &[TAd], op: &Op) -> String {
-    let (src, leaves) = match build_zip::<u64, D>(root, post, |id| id, true) {
+    let (src, leaves) = match build_zip::<u64, D>(root, post, |id| val_of(id as usize), true) {
         Ok(x) => x,
         Err(e) => return e,
     };
@@ -1352,7 +1395,10 @@ fn zip_owned<const D: usize>(root: &Root, post: &[TAd], op: &Op) -> String {
     };
     if op.op == "left" {
         let s = show_left(
-            leaves.iter().flat_map(|l| l.leaf.map_cells(&|d| d.id)).map(|id| Dc { id }.show_forget()),
+            leaves
+                .iter()
+                .flat_map(|l| l.leaf.map_cells(&|d| if d.show() == "P" { PLACEHOLDER } else { d.val }))
+                .map(|v| if v == PLACEHOLDER { "P".to_string() } else { v.to_string() }),
         );
         drop(moved);
         return s;
@@ -1438,7 +1484,7 @@ macro_rules! matrix_kinds {
 
 fn matrix_u64(rows: usize, cols: usize, ads: &[MAd], op: &Op) -> String {
     let total = rows * cols;
-    let leaf = Leaf::new(Matrix::from_flat_row_major((rows, cols), (0..total as u64).collect()));
+    let leaf = Leaf::new(Matrix::from_flat_row_major((rows, cols), (0..total).map(val_of).collect()));
     let base = Base::single(leaf.get().get_reference(0, 0) as *const u64);
     let a = op.a;
     let into = op.into;
@@ -1629,6 +1675,15 @@ impl Runner {
     }
 
     pub fn step(&mut self, toks: &[&str]) -> String {
+        // `d=<mode>` on a case header chooses the data stored in the leaves
+        let stripped: Vec<&str>;
+        let toks: &[&str] = if toks.first() == Some(&"@") {
+            set_mode(opt_arg("d", toks).unwrap_or("ids"));
+            stripped = toks.iter().copied().filter(|t| !t.starts_with("d=")).collect();
+            &stripped
+        } else {
+            toks
+        };
         match toks {
             ["@", "shape", lens_s] => {
                 self.case = Case::Shape(parse_usizes(lens_s));
@@ -1926,6 +1981,13 @@ fn gen_tensor_cases(g: &mut Gen) {
         g.op(format!("@ tensor {}", show_shape(&shape)));
         emit_tensor_ops(g, &shape, &[], true);
         g.count("tensor.source=container");
+        // the same container holding zeros / one value / duplicates
+        if g.thorough || g.rng.chance(1, 3) {
+            let sfx = data_suffix(g, 1, 1);
+            g.op(format!("@ tensor {}{}", show_shape(&shape), sfx));
+            emit_tensor_ops(g, &shape, &[], g.thorough);
+            g.count("tensor.source=container-degenerate");
+        }
         if d == 0 {
             continue;
         }
@@ -1946,7 +2008,8 @@ fn gen_tensor_cases(g: &mut Gen) {
                 show_shape(&shape),
                 ads.iter().map(show_tad).collect::<Vec<_>>().join(" ")
             );
-            g.op(header);
+            let sfx = data_suffix(g, 1, 4);
+            g.op(header + &sfx);
             for ad in &ads {
                 g.count(match ad {
                     TAd::Range(_) => "tensor.adaptor=range",
@@ -2171,6 +2234,12 @@ fn gen_matrix_cases(g: &mut Gen) {
         g.op(format!("@ matrix {} {}", rows, cols));
         g.count("matrix.source=container");
         emit_matrix_ops(g, rows, cols, &[], true);
+        {
+            let sfx = data_suffix(g, 1, 1);
+            g.op(format!("@ matrix {} {}{}", rows, cols, sfx));
+            g.count("matrix.source=container-degenerate");
+            emit_matrix_ops(g, rows, cols, &[], g.thorough);
+        }
         if rows > 8 || cols > 8 {
             continue;
         }
@@ -2212,11 +2281,13 @@ fn gen_matrix_cases(g: &mut Gen) {
                     c = clip(*cs, *cl, c);
                 }
             }
+            let sfx = data_suffix(g, 1, 4);
             g.op(format!(
-                "@ matrix {} {} {}",
+                "@ matrix {} {} {}{}",
                 rows,
                 cols,
-                ads.iter().map(show_mad).collect::<Vec<_>>().join(" ")
+                ads.iter().map(show_mad).collect::<Vec<_>>().join(" "),
+                sfx
             ));
             g.count(if r == 0 || c == 0 { "matrix.source=empty-view" } else { "matrix.source=view" });
             if r == 0 && c > 0 {
@@ -2235,6 +2306,18 @@ fn gen_matrix_cases(g: &mut Gen) {
 /// reachable only as a boxed composition, like a source under two or more adaptors
 fn zip_vias_marker() -> Vec<TAd> {
     vec![TAd::Reverse(vec![]), TAd::Reverse(vec![])]
+}
+
+/// with probability num/den a degenerate data mode for the case header (` d=<mode>`)
+fn data_suffix(g: &mut Gen, num: usize, den: usize) -> String {
+    if g.rng.chance(num, den) {
+        let m = *g.rng.pick(&["zero", "same", "dup", "mod3"]);
+        g.count(&format!("data.{}", m));
+        format!(" d={}", m)
+    } else {
+        g.count("data.ids");
+        String::new()
+    }
 }
 
 const ZIP_FORMS: [(&str, usize); 7] =
@@ -2292,7 +2375,8 @@ fn gen_zip_cases(g: &mut Gen) {
             for ad in &post {
                 header.push_str(&format!(" {}", show_tad(ad)));
             }
-            g.op(header);
+            let sfx = data_suffix(g, 1, 4);
+            g.op(header + &sfx);
             g.count(&format!("zip.stack.{}{}", form, n));
             g.count(&format!("zip.stack.pre={}.post={}", pre.len(), post.len()));
             g.count(&format!("tensor.D={}", cur.len()));
@@ -2358,7 +2442,8 @@ fn gen_zip_cases(g: &mut Gen) {
             for ad in &post {
                 header.push_str(&format!(" {}", show_tad(ad)));
             }
-            g.op(header);
+            let sfx = data_suffix(g, 1, 4);
+            g.op(header + &sfx);
             g.count(&format!("zip.chain.{}{}", form, n));
             g.count(&format!("zip.chain.pre={}.post={}", pre.len(), post.len()));
             g.count(&format!("tensor.D={}", cur.len()));
